@@ -720,7 +720,14 @@ def cmp(exp, got):
 def _mk_app(w, op):
     sch = w.sch
     _, aid, prio, demand, aff, limits, ret, lease, grp, once, traits, alid = op
-    w.now_order = getattr(w, 'now_order', 0) + 1
+    # first-come stamps increase with creation; every fifth instance that follows one of the same allocation
+    # arrives "in the same microsecond" and shares its stamp (inside one allocation the name breaks the tie;
+    # across allocations the real merge would have to compare the instances themselves)
+    if not (aid % 5 == 0 and getattr(w, 'last_alid', None) == alid and getattr(w, 'now_order', 0) > 0):
+        w.now_order = getattr(w, 'now_order', 0) + 1
+    else:
+        w.stats_tied = getattr(w, 'stats_tied', 0) + 1
+    w.last_alid = alid
     app = sch.Application(aname(aid, aff), prio, demand, str(aff),
                           affinity_limits={k: v for k, v in limits.items()} or None,
                           data_retention_timeout=ret, lease=lease,
@@ -786,6 +793,14 @@ def _cycle(w, run, pid, stats):
         aborted = False
     except (AssertionError, KeyError, IndexError) as exc:
         aborted = repr(exc)
+    except TypeError as exc:
+        if getattr(w, 'stats_tied', 0) and "'<' not supported" in str(exc):
+            # two instances of DIFFERENT allocations share a stamp and tie on rank, utilisation and state: the
+            # real merge of the allocation queues compares the instances themselves and the cycle dies
+            # (no queue, no placement change: nothing for the model to follow) - the history ends here
+            run.tags.add('stamp-tie-across-allocations')
+            raise _Abort(repr(exc))
+        raise
     qs = '|'.join(','.join('%d:%d' % (a, 1 if u else 0) for a, u in q) or '-' for q in w.queues) or 'none'
     line = 'cycle %s %s' % (qs, ','.join(map(str, w.choices)) or '-')
     if aborted:
